@@ -322,7 +322,32 @@ impl C12 {
             }
         }
         ctx.probe("system_history");
-        evaluate(&o, &blocks, ctx)
+        evaluate(&o, &blocks, ctx)?;
+        // ---- and through the public deck controls: the tape is played off its end (the deck stops by itself), PLAY
+        // is pressed again, and the pilot tone of the first block must be back within a few frames
+        if img.len() % 2 == 0 {
+            ctx.probe("system_play_after_running_off_the_end");
+            e.play_tape();
+            let mut left = total + 8_000_000;
+            while left > 0 {
+                e.verif_bus().wait_internal(16);
+                left = left.saturating_sub(16);
+            }
+            e.play_tape();
+            let mut level = (e.verif_bus().read_io(port) >> 6) & 1;
+            let mut edges = 0u32;
+            for _ in 0..60_000 {
+                let v = (e.verif_bus().read_io(port) >> 6) & 1;
+                if v != level {
+                    edges += 1;
+                    level = v;
+                }
+            }
+            if edges < 40 {
+                return Err(Fail::new("C12.play_after_end_ignored", "system=1", format!("after the tape ran off its end PLAY was pressed again: {} EAR edges in the next 240000 T (a pilot tone has about 110)", edges)));
+            }
+        }
+        Ok(())
     }
 }
 
@@ -358,7 +383,7 @@ impl Property for C12 {
         ]
     }
     fn expected_probes(&self) -> Vec<&'static str> {
-        vec!["stop_mid_pilot", "stop_mid_byte", "stop_in_pause", "stop_while_stopped", "play_after_end", "rewind_while_playing", "rewind_while_stopped", "ran_off_end", "stop_at_refill", "system_history", "stop_aimed_by_edge_count", "system_ula_write_between_reads"]
+        vec!["stop_mid_pilot", "stop_mid_byte", "stop_in_pause", "stop_while_stopped", "play_after_end", "rewind_while_playing", "rewind_while_stopped", "ran_off_end", "stop_at_refill", "system_history", "stop_aimed_by_edge_count", "system_ula_write_between_reads", "system_play_after_running_off_the_end"]
     }
 
     fn gen(&self, rng: &mut Rng, _tier: Tier, idx: u64) -> Scenario {
